@@ -758,7 +758,7 @@ func (ro *RedisOutput) parseAofCommand(replayQuit usync.WaitCloser, reader *bufi
 				selectDB = n
 			} else if ro.outFilter.FilterCmd(sCmd) {
 				ignoreCmd = true
-			} else if strings.EqualFold(sCmd, "publish") && strings.EqualFold(string(argv[0]), "__sentinel__:hello") {
+			} else if strings.EqualFold(sCmd, "publish") && len(argv) > 0 && strings.EqualFold(string(argv[0]), "__sentinel__:hello") {
 				ignoresentinel = true
 			}
 
@@ -804,7 +804,7 @@ func (ro *RedisOutput) parseAofCommand(replayQuit usync.WaitCloser, reader *bufi
 			Db:     currentDB,
 		}
 		if len(syncDelayTestkey) > 0 {
-			if sCmd == "set" && len(argv) > 0 {
+			if sCmd == "set" && len(argv) > 1 {
 				if bytes.Equal(argv[0], syncDelayTestkey) {
 					vals := strings.Split(util.BytesToString(argv[1]), "_")
 					if len(vals) == 2 {
